@@ -26,13 +26,17 @@ def leaf(variant: dict, kernel_name: str | None = None) -> str:
 	enum_v = variant.get('enum', 1)
 	extra = variant.get('extra', 0)
 	# SEED: un-annotated module variable; with a kernel module its type is whatever kernel_val() returns (the leaf's text stays the same)
-	head = ['from enum import Enum'] + ([f'from {kernel_name} import kernel_val'] if kernel_name else []) + ['', f'SEED = kernel_val()' if kernel_name else f'SEED = {lit}']
+	head = ['from enum import Enum', 'from typing import Generic, TypeVar'] + ([f'from {kernel_name} import kernel_val'] if kernel_name else []) + ['', f'SEED = kernel_val()' if kernel_name else f'SEED = {lit}']
 	lines = [
 		*head, '', '',
 		'class Tone(Enum):', f'\tLOW = {enum_v}', f'\tHIGH = {enum_v + 1}', '', '',
 		'class Item:', f'\tvalue: {t}', '\tcount: int', '',
 		f'\tdef __init__(self, value: {t}, count: int = 1) -> None:', '\t\tself.value = value', '\t\tself.count = count', '',
 		f'\tdef bumped(self) -> {t}:', '\t\tn = self.value', f'\t\treturn {step}', '', '',
+		# a generic class and a subclass that fixes its argument: the member's type is found through the subclass's bases
+		"T = TypeVar('T')", '', '',
+		'class Crate(Generic[T]):', '\tload: T', '', '\tdef __init__(self, load: T) -> None:', '\t\tself.load = load', '', '',
+		'class IntCrate(Crate[int]):', '\tdef __init__(self) -> None:', '\t\tsuper().__init__(1)', '', '',
 		f'def base_val() -> {t}:', f'\treturn {lit}', '', '',
 		# eleven parameters: more than ten attributes on one level of the function's symbol
 		'def wide(' + ', '.join(f'a{i}: int' for i in range(11)) + ') -> str:', "\treturn 'w'", '', '',
@@ -45,12 +49,13 @@ def leaf(variant: dict, kernel_name: str | None = None) -> str:
 
 def mid(name_of_leaf: str, variant: dict, tag: str = 'm') -> str:
 	wrap = variant.get('wrap', 'plain')
-	lines = ['from collections.abc import Callable', f'from {name_of_leaf} import Item, Tone, base_val, make_item, wide, SEED', '', '']
+	lines = ['from collections.abc import Callable', f'from {name_of_leaf} import Item, Tone, IntCrate, base_val, make_item, wide, SEED', '', '']
 	# the first definition sits at the same tree position in every mid module: a type-parameterised function in one, a plain one in the others
 	if tag == 'a':
 		lines += [f'def {tag}_first[T](v: T) -> T:', '\treturn v', '', '']
 	else:
 		lines += [f'def {tag}_first(v: int) -> int:', '\treturn v', '', '']
+	lines += [f'def {tag}_crate() -> int:', '\tcrate = IntCrate()', '\tcl = crate.load', '\treturn cl', '', '']
 	lines += [f'def {tag}_wide() -> int:', '\twv = wide(' + ', '.join(str(i) for i in range(11)) + ')', '\twvs = [wv]', '\treturn len(wvs)', '', '']
 	lines += [f'def {tag}_seed() -> int:', '\tseed = SEED', '\tseeds = [SEED, seed]', '\treturn len(seeds)', '', '']
 	# the only dict type of the project (a user template may request an include for it): root has none
